@@ -2726,6 +2726,147 @@ fn predict_bhupred(a: &mut [u8], x0: usize, y0: usize, stride: usize) {
     a[(y0 + 3) * stride + x0 + 2] = l3;
     a[(y0 + 3) * stride + x0 + 3] = l3;
 }
+// ------------------------------------------------------------------------------------------------
+// Verification hooks (intra prediction, check `vp8predict`): thin wrappers, compiled only with
+// `--cfg image_webp_verif`.
+// ------------------------------------------------------------------------------------------------
+
+/// Verification hook: one of the block predictors, selected by the name of the function without the `predict_`
+/// prefix (`above` / `left` are only used by `dcpred`, `size` only by `vpred`, `hpred`, `dcpred`, `tmpred`).
+#[cfg(image_webp_verif)]
+#[allow(clippy::too_many_arguments)]
+pub(crate) fn verif_predict(
+    which: &str,
+    ws: &mut [u8],
+    size: usize,
+    x0: usize,
+    y0: usize,
+    stride: usize,
+    above: bool,
+    left: bool,
+) {
+    match which {
+        "vpred" => predict_vpred(ws, size, x0, y0, stride),
+        "hpred" => predict_hpred(ws, size, x0, y0, stride),
+        "dcpred" => predict_dcpred(ws, size, stride, above, left),
+        "tmpred" => predict_tmpred(ws, size, x0, y0, stride),
+        "bdcpred" => predict_bdcpred(ws, x0, y0, stride),
+        "bvepred" => predict_bvepred(ws, x0, y0, stride),
+        "bhepred" => predict_bhepred(ws, x0, y0, stride),
+        "bldpred" => predict_bldpred(ws, x0, y0, stride),
+        "brdpred" => predict_brdpred(ws, x0, y0, stride),
+        "bvrpred" => predict_bvrpred(ws, x0, y0, stride),
+        "bvlpred" => predict_bvlpred(ws, x0, y0, stride),
+        "bhdpred" => predict_bhdpred(ws, x0, y0, stride),
+        "bhupred" => predict_bhupred(ws, x0, y0, stride),
+        _ => panic!("verif_predict: unknown predictor"),
+    }
+}
+
+/// Verification hook: `topleft_pixel` / `top_pixels` / `left_pixels` / `edge_pixels`, results in tuple order.
+#[cfg(image_webp_verif)]
+pub(crate) fn verif_pixels(which: &str, ws: &[u8], x0: usize, y0: usize, stride: usize) -> Vec<u8> {
+    match which {
+        "topleft" => vec![topleft_pixel(ws, x0, y0, stride)],
+        "top" => {
+            let (a0, a1, a2, a3, a4, a5, a6, a7) = top_pixels(ws, x0, y0, stride);
+            vec![a0, a1, a2, a3, a4, a5, a6, a7]
+        }
+        "left" => {
+            let (l0, l1, l2, l3) = left_pixels(ws, x0, y0, stride);
+            vec![l0, l1, l2, l3]
+        }
+        "edge" => {
+            let (e0, e1, e2, e3, e4, e5, e6, e7, e8) = edge_pixels(ws, x0, y0, stride);
+            vec![e0, e1, e2, e3, e4, e5, e6, e7, e8]
+        }
+        _ => panic!("verif_pixels: unknown reader"),
+    }
+}
+
+/// Verification hook: `add_residue`
+#[cfg(image_webp_verif)]
+pub(crate) fn verif_add_residue(ws: &mut [u8], rblock: &[i32; 16], y0: usize, x0: usize, stride: usize) {
+    add_residue(ws, rblock, y0, x0, stride);
+}
+
+/// Verification hook: `predict_4x4` with the sub-block modes given by their `i8` numbers
+#[cfg(image_webp_verif)]
+pub(crate) fn verif_predict_4x4(ws: &mut [u8], stride: usize, modes: &[i8], resdata: &[i32]) {
+    let modes: Vec<IntraMode> = modes
+        .iter()
+        .map(|&m| IntraMode::from_i8(m).expect("sub-block mode number"))
+        .collect();
+    predict_4x4(ws, stride, &modes, resdata);
+}
+
+/// Verification hook: `create_border_luma`
+#[cfg(image_webp_verif)]
+pub(crate) fn verif_create_border_luma(
+    mbx: usize,
+    mby: usize,
+    mbw: usize,
+    top: &[u8],
+    left: &[u8],
+) -> [u8; 357] {
+    create_border_luma(mbx, mby, mbw, top, left)
+}
+
+/// Verification hook: `Vp8Decoder::intra_predict_luma` on a decoder whose only meaningful state is the macroblock
+/// width, the luma plane and the two border arrays; returns (ybuf, top_border, left_border) afterwards.
+#[cfg(image_webp_verif)]
+#[allow(clippy::too_many_arguments)]
+pub(crate) fn verif_intra_predict_luma(
+    mbw: u16,
+    mbx: usize,
+    mby: usize,
+    luma_mode: i8,
+    bpred: &[i8; 16],
+    resdata: &[i32],
+    ybuf: Vec<u8>,
+    top_border: Vec<u8>,
+    left_border: Vec<u8>,
+) -> (Vec<u8>, Vec<u8>, Vec<u8>) {
+    let mut d = Vp8Decoder::new(std::io::empty());
+    d.mbwidth = mbw;
+    d.frame.ybuf = ybuf;
+    d.top_border = top_border;
+    d.left_border = left_border;
+    let mut mb = MacroBlock {
+        luma_mode: LumaMode::from_i8(luma_mode).expect("luma mode number"),
+        ..MacroBlock::default()
+    };
+    for (dst, &m) in mb.bpred.iter_mut().zip(bpred.iter()) {
+        *dst = IntraMode::from_i8(m).expect("sub-block mode number");
+    }
+    d.intra_predict_luma(mbx, mby, &mb, resdata);
+    (d.frame.ybuf, d.top_border, d.left_border)
+}
+
+/// Verification hook: `Vp8Decoder::intra_predict_chroma` (which builds the two bordered chroma workspaces inline)
+/// on a decoder whose only meaningful state is the macroblock width and the chroma planes; returns (ubuf, vbuf).
+#[cfg(image_webp_verif)]
+pub(crate) fn verif_intra_predict_chroma(
+    mbw: u16,
+    mbx: usize,
+    mby: usize,
+    chroma_mode: i8,
+    resdata: &[i32],
+    ubuf: Vec<u8>,
+    vbuf: Vec<u8>,
+) -> (Vec<u8>, Vec<u8>) {
+    let mut d = Vp8Decoder::new(std::io::empty());
+    d.mbwidth = mbw;
+    d.frame.ubuf = ubuf;
+    d.frame.vbuf = vbuf;
+    let mb = MacroBlock {
+        chroma_mode: ChromaMode::from_i8(chroma_mode).expect("chroma mode number"),
+        ..MacroBlock::default()
+    };
+    d.intra_predict_chroma(mbx, mby, &mb, resdata);
+    (d.frame.ubuf, d.frame.vbuf)
+}
+
 
 /// Verification hooks (parsing correspondence): the parsing functions of `Vp8Decoder` at component level.
 /// `Vp8Parser` owns a real `Vp8Decoder` over an in-memory reader; every `read_*` method is a direct call of the
